@@ -74,7 +74,7 @@ PROPS = {
     },
     "C16": {
         "kani": ["padding_contract:kani-complete"],
-        "units": ["verify", "nonce", "gens", "ctors", "codec", "serde"],
+        "units": ["verify", "nonce", "gens", "ctors", "codec", "serde", "ristretto_glue"],
         "design_ref": "DESIGN.md section 7, C16",
         "technique": "contract-based deductive verification (Verus): built-in panic-freedom obligations (index, overflow, unwrap, shift) and dependency preconditions (dalek multiscalar length assertions) on the real verification path",
         "claim": "verify_batch, verify, the consistency check, the decompression helpers, nonce/encode_usize, compute_generator_padding and the generator iterator are proved "
@@ -88,7 +88,7 @@ PROPS = {
     },
     "C15": {
         "kani": ["ext_try_from_u8_exact:kani-complete"],
-        "units": ["codec", "serde", "ctors", "lemmas_codec", "prove"],
+        "units": ["codec", "serde", "ctors", "lemmas_codec", "prove", "ristretto_glue"],
         "design_ref": "DESIGN.md section 7, C15",
         "technique": "contract-based deductive verification (Verus) of the real from_bytes / to_bytes (closures, chunks_exact, itertools tuples modelled by verified adapters); iff-acceptance for byte strings of every length",
         "claim": "from_bytes(b) is proved to return Ok exactly when b[0] is an extension degree d in 1..=6, the remainder is 5+d+2k 32-byte elements with k >= 1 and no trailing "
@@ -144,7 +144,7 @@ PROPS = {
         ],
     },
     "C05": {
-        "units": ["verify", "verify_rel", "transcripts", "codec", "lemmas"],
+        "units": ["verify", "verify_rel", "transcripts", "codec", "lemmas", "ristretto_glue"],
         "design_ref": "DESIGN.md section 7, C05",
         "technique": "contract-based deductive verification (Verus): every proof element and statement field is proved to occur in the specified transcript log before the challenges that must depend on it, or in the specified residual; shape checks and point decoding are postconditions of Ok; rejections are Err values (panic freedom)",
         "claim": "Proved on the real verifier: (i) A, every L_j/R_j, A1, B and all statement data are absorbed before the challenges that follow them (C04) and r1, s1, every d1_k are absorbed "
@@ -238,7 +238,7 @@ PROPS = {
         "standin_replay": "bounded, not proof: eight proofs serialised by the unchanged tree (replay/vectors.txt: bit lengths 1..64, aggregation 1..8, extension degrees 1..6, "
                           "with and without seed and promises, capacity above the aggregation factor) must still decode, re-encode identically, be accepted in all three modes "
                           "and yield the recorded masks under statements rebuilt from the same seeds",
-        "units": ["transcripts", "nonce", "codec", "gens_chain"],
+        "units": ["transcripts", "nonce", "codec", "gens_chain", "ristretto_glue"],
         "design_ref": "DESIGN.md section 7, C19",
         "technique": "contract-based deductive verification (Verus): the released wire format written once as specification functions (transcript layout, nonce KDF byte layout, proof byte layout); the real code proved to conform",
         "claim": "Conformance to the frozen 0.4.0 wire specification as written in /verif/spec: the transcript layout full_log (domain separator, labels H, G, N, T, M, Ci, "
@@ -255,7 +255,7 @@ PROPS = {
                           "(bits, capacity) in {(4,1),(4,4),(8,2),(64,2)} and their 4x capacities are computed by the real crate and checked for non-identity, pairwise distinctness, "
                           "capacity independence and compress() agreement, and compared with an independent recomputation of the documented derivations (SHAKE256 chain, SHA3-512 hash to "
                           "point, Ristretto basepoint) done with the sha3 crate directly",
-        "units": ["gens_new", "gens_chain", "pedersen_ctor", "gens", "ctors"],
+        "units": ["gens_new", "gens_chain", "pedersen_ctor", "gens", "ctors", "ristretto_glue"],
         "design_ref": "DESIGN.md section 7, C11",
         "technique": "contract-based deductive verification (Verus) of the real BulletproofGens::new, generator iterators and accessors against a SHAKE256 / hash-to-group model",
         "claim": "Proved: BulletproofGens::new(n, c) returns Ok iff c <= 2^32, and then g_vec[i][j] is the j-th point of the generator chain labelled 'G' || le32(i) and h_vec[i][j] "
